@@ -22,6 +22,7 @@ import LinVerif.Lemmas.C16Influx
 import LinVerif.Lemmas.C16FlatAgree
 import LinVerif.Lemmas.C16Ident
 import LinVerif.Lemmas.C16RoutePerm
+import LinVerif.Lemmas.C16ProtoConv
 import LinVerif.Generated.C16
 
 namespace LinVerif.Props.C16
@@ -630,7 +631,7 @@ theorem typeSwitch_expected : Generated.C16.typeSwitch = [
 
 /-- `build`: validate, de-duplicate, then hash the de-duplicated tags -/
 theorem marshalPipeline_expected : Generated.C16.marshalPipeline =
-  ["rc.validateMetric", "rc.deDupTags", "flatMetricsV1.MetricAddNamespace", "flatMetricsV1.MetricAddName",
+  ["rc.resetForNextConverter", "rc.validateMetric", "rc.deDupTags", "flatMetricsV1.MetricAddNamespace", "flatMetricsV1.MetricAddName",
    "rc.hashOfName", "flatMetricsV1.MetricAddTimestamp", "tag.XXHashOfKeyValues", "flatMetricsV1.MetricAddKvsHash"] := rfl
 
 /-- `kvsHash`: IsSorted, else Sort, then the concatenation hash -/
@@ -1286,6 +1287,70 @@ example :
   decide
 
 end identity
+
+/-! ## the pooled protobuf converter: a history of requests on one converter object -/
+
+section protoPool
+open LinVerif.C16Ident LinVerif.C16ProtoConv
+
+/-- **proto_converter_refines_convert** (refinement, for EVERY state of the pooled converter — offset slices
+left by an accepted row or by a row rejected at any rule, hash buffer, namespace / enriched tags / limits of
+the request it serves): what `ConvertTo` hands to `FromBlock`, or the error `TryAppend` sees, is the
+stateless conversion of the metric alone under the converter's request context. -/
+theorem proto_converter_refines_convert (fn fs : NameFlow) (tb : Bool) (sort : List Tag → List Tag)
+    (H : String → Nat) (now : Int) (pc : PC) (m : Option PMetric) :
+    (pc.marshal fn fs tb sort H now m).2 = convertF fn fs tb sort H (pc.cfg now) m :=
+  marshal_result fn fs tb sort H now pc m
+
+/-- **proto_converter_history_no_state_leak** (histories of any length): requests with their own namespace,
+enriched tags, limits and metrics, served one after the other by ONE converter object from the pool — in
+whatever state `pc`, `pc'` the pool hands it out — give, request by request and metric by metric, the stateless
+conversion under THAT request's context: nothing of an earlier row or an earlier request (tags, field names,
+namespace, enriched tags, limits, hashed name) reaches a later one. -/
+theorem proto_converter_history_no_state_leak (fn fs : NameFlow) (tb : Bool) (sort : List Tag → List Tag)
+    (H : String → Nat) (now : Int) (pc pc' : PC) (reqs : List Req) :
+    (PC.history fn fs tb sort H now pc reqs).2 = (PC.history fn fs tb sort H now pc' reqs).2 ∧
+    (PC.history fn fs tb sort H now pc reqs).2 =
+      reqs.map (fun rq => rq.metrics.map (convertF fn fs tb sort H (rq.cfg now))) := by
+  rw [history_result, history_result]
+  exact ⟨rfl, rfl⟩
+
+/-- … and with the placement of the sanitiser the source has now, that is `Row.convert`, the function all
+the theorems above are about -/
+theorem proto_converter_history_is_convert (tb : Bool) (sort : List Tag → List Tag)
+    (H : String → Nat) (now : Int) (pc : PC) (reqs : List Req) :
+    (PC.history (.ofTriple Generated.C16.protoNameFlow) (.ofTriple Generated.C16.protoNsFlow) tb sort H now pc reqs).2 =
+      reqs.map (fun rq => rq.metrics.map (convert tb sort H (rq.cfg now))) := by
+  rw [history_result]
+  apply List.map_congr_left
+  intro rq _
+  apply List.map_congr_left
+  intro m _
+  exact convertF_sound _ _ (by decide) (by decide) tb sort H _ m
+
+/-- ties: what is truncated per metric, what per request, how the pool hands the converter out -/
+theorem protoResetForNextSrc_expected : Generated.C16.protoResetForNextSrc =
+    "rc.flatBuilder.Reset() ; rc.keys = rc.keys[:0] ; rc.values = rc.values[:0] ; rc.fieldNames = rc.fieldNames[:0] ; rc.kvs = rc.kvs[:0] ; rc.fields = rc.fields[:0]" := rfl
+theorem protoResetSrc_expected : Generated.C16.protoResetSrc =
+    "rc.resetForNextConverter() ; rc.namespace = rc.namespace[:0] ; rc.enrichedTags = rc.enrichedTags[:0]" := rfl
+theorem protoNewConverterSrc_expected : Generated.C16.protoNewConverterSrc =
+    "releaseFunc = func(cvt *BrokerRowProtoConverter) { rowConverterPool.Put(cvt) } ; item := rowConverterPool.Get() ; if item == nil { cvt = NewProtoConverter(limits) } else { cvt = item.(*BrokerRowProtoConverter) } ; cvt.Reset() ; cvt.namespace = namespace ; cvt.enrichedTags = enrichedTags ; cvt.limits = limits ; return cvt, releaseFunc" := rfl
+theorem protoConvertToSrc_expected : Generated.C16.protoConvertToSrc =
+    "block, err := rc.MarshalProtoMetricV1(m) ; if err != nil { return err } ; row.FromBlock(block) ; return nil" := rfl
+
+/-- non-vacuity: a converter left dirty by a many-tag row of another namespace converts the next request's
+metric exactly as a brand-new one does, and accepts it -/
+example :
+    let H : String → Nat := fun s => s.length
+    let dirty : PC := ⟨[⟨"z", "9"⟩], [⟨"z", "9"⟩, ⟨"y", "8"⟩], ["old"], [⟨"old", 1, .num 7⟩], "old|ns", [⟨"e", "1"⟩], "oldnsold", lim0⟩
+    let rq : Req := ⟨"te|am", [⟨"dc", "eu"⟩], lim0, [some m0, none, some m0]⟩
+    (PC.history .current .current true (insertionSort (less true)) H 1000 dirty [rq]).2 =
+      (PC.history .current .current true (insertionSort (less true)) H 1000 (PC.fresh lim0) [rq]).2 ∧
+    ((PC.history .current .current true (insertionSort (less true)) H 1000 dirty [rq]).2.map
+      (fun out => out.map (fun r => r.toOption.isSome))) = [[true, false, true]] := by
+  decide
+
+end protoPool
 
 /-! ## proved negations -/
 namespace Neg
